@@ -283,9 +283,10 @@ Definition nextIsCurrencySymbol (s : lx) : bool :=
 Definition nextIsDigit (s : lx) : bool :=
   match tl (rest s) with [] => false | c :: _ => isDigitB c end.
 Definition nextIsLetterCommodity (s : lx) : bool :=
-  match tl (rest s) with
+  let l := tl (rest s) in
+  match l with
   | [] => false
-  | c :: _ as l =>
+  | c :: _ =>
       if negb (isLetterB c) then false
       else match skipn (span_while isLetterB l) l with
            | [] => false
